@@ -49,7 +49,7 @@ TOL = 1e-12     # summation-order rounding relative to sum |contributions| per p
 def plan(tier):
     if tier == 'thorough':
         return dict(shards=16, cases=9000, timeout=2400, budget_s=700)
-    return dict(shards=6, cases=420, timeout=600, budget_s=70)
+    return dict(shards=6, cases=400, timeout=600, budget_s=58)
 
 
 def selftest():
@@ -259,6 +259,66 @@ def compare(case, obs, ref, what, mech, unit_rule='model', tol=TOL):
         det = dict(nbad=int(bad.sum()), at=[int(j[0]), int(j[1])], obs=float(ov[j]), exp=float(ev[j]),
                    scale=float(sc[j]), dev=dev)
     return case.check(ok, what, mech, **det)
+
+
+def _agree(obs, ref, tol=TOL):
+    """same rule as compare(), without recording anything."""
+    ov, ou = _val_unit(obs)
+    if ov.shape != ref['values'].shape:
+        return False
+    if int(np.sum(ref['overlap'])) and not ((ou is None and ref['unit'] is None) or
+                                            (ou is not None and ref['unit'] is not None and ou == ref['unit'])):
+        return False
+    with np.errstate(all='ignore'):
+        return bool(np.all(np.abs(ov.astype(float) - ref['values']) <= tol * ref['scale']))
+
+
+def lib_bbox_shape(model):
+    """the window the expression ceil(high - low) gives in floating point for the model's own bounding box."""
+    (ylo, yhi), (xlo, xhi) = model.bounding_box.bounding_box()
+    return int(np.ceil(yhi - ylo)), int(np.ceil(xhi - xlo))
+
+
+def tie_shapes(model, rows, x_name, y_name):
+    """For image-based models whose footprint is a whole number of pixels: per row, the (ny, nx) window that
+    ceil((c + h) - (c - h)) yields when floating-point rounding pushes the difference above the exact extent 2h
+    (one pixel larger than the footprint), else None."""
+    foot = R.image_model_footprint(model)
+    out = [None] * len(rows)
+    if foot is None:
+        return out
+    exact = (int(np.ceil(foot[0])), int(np.ceil(foot[1])))
+    if abs(foot[0] - round(foot[0])) > 1e-9 and abs(foot[1] - round(foot[1])) > 1e-9:
+        return out
+    for i, r in enumerate(rows):
+        if r.get('model_shape') is not None:
+            continue
+        m = model.copy()
+        setattr(m, x_name, r['params'][x_name])
+        setattr(m, y_name, r['params'][y_name])
+        ls = lib_bbox_shape(m)
+        if ls != exact and 0 <= ls[0] - exact[0] <= 1 and 0 <= ls[1] - exact[1] <= 1:
+            ok_y = ls[0] == exact[0] or abs(foot[0] - round(foot[0])) <= 1e-9
+            ok_x = ls[1] == exact[1] or abs(foot[1] - round(foot[1])) <= 1e-9
+            if ok_y and ok_x:
+                out[i] = ls
+    return out
+
+
+def compare_tie(case, obs, ref, what, mech, alt_fn=None):
+    """compare(); when the strict comparison fails and `alt_fn` supplies the superposition with the rounding-enlarged
+    bounding-box windows, a library image equal to *that* is recorded under the mechanism key
+    bbox_ceil_rounding_tie=True (a separate, narrowly keyed finding), anything else stays an unkeyed violation."""
+    m0 = dict(mech, bbox_ceil_rounding_tie=False)
+    if alt_fn is None or _agree(obs, ref):
+        return compare(case, obs, ref, what, m0)
+    alt = alt_fn()
+    if alt is not None and _agree(obs, alt):
+        case.note('bbox_ceil_rounding_tie_observed')
+        return case.check(False, what, dict(mech, bbox_ceil_rounding_tie=True),
+                          note='image equals the superposition with bounding-box windows one pixel larger than the '
+                               'footprint (ceil of a rounded floating-point difference)')
+    return compare(case, obs, ref, what, m0)
 
 
 class LibRaised(Exception):
@@ -715,10 +775,22 @@ def _mmi(case):
                         oversample=info['oversample'], bbox_factor=info['bbox_factor'])
 
     allidx = list(range(info['n']))
+    ties = tie_shapes(model, rows, x_name, y_name) if (info['wmode'] == 'bbox' and method != 'integrate') \
+        else [None] * info['n']
+
+    def alt_for(idx):
+        """superposition with the rounding-enlarged windows for the rows of this call (None if no such row)."""
+        idx = [i for i in idx if i is not None]
+        if not any(ties[i] is not None for i in idx):
+            return None
+        rr = [dict(rows[i], model_shape=ties[i]) if ties[i] is not None else rows[i] for i in idx]
+        return lambda: R.render(shape, model, rr, x_name, y_name, method=method, oversample=info['oversample'],
+                                bbox_factor=info['bbox_factor'])
+
     img = None
     try:
         img = call(t, allidx)
-        compare(case, img, ref, 'image_vs_superposition', mech)
+        compare_tie(case, img, ref, 'image_vs_superposition', mech, alt_for(allidx))
         case.check(isinstance(img, np.ndarray) and img.dtype.kind == 'f', 'image_is_float_array', mech,
                    type=type(img).__name__)
     except LibRaised:
@@ -734,7 +806,7 @@ def _mmi(case):
     perm = [int(i) for i in rng.permutation(info['n'])]
     try:
         im2 = call(t[perm], perm)
-        compare(case, im2, ref, 'row_order_invariance', mech)
+        compare_tie(case, im2, ref, 'row_order_invariance', mech, alt_for(perm))
     except LibRaised:
         pass
     # -- off-image rows removed: identical arithmetic on the remaining rows
@@ -742,7 +814,7 @@ def _mmi(case):
         keep = [i for i in allidx if overlap[i]]
         try:
             im3 = call(t[keep], keep)
-            compare(case, im3, ref, 'offimage_rows_removed', mech)
+            compare_tie(case, im3, ref, 'offimage_rows_removed', mech, alt_for(keep))
             if img is not None and nover:
                 case.check(core.exact(_val_unit(im3)[0], _val_unit(img)[0]), 'offimage_rows_removed_exact', mech)
         except LibRaised:
@@ -755,17 +827,17 @@ def _mmi(case):
             ia = call(t[a_idx], a_idx)
             ib = call(t[b_idx], b_idx)
             ra, rb = sub(a_idx), sub(b_idx)
-            compare(case, ia, ra, 'part_vs_superposition', mech)
-            compare(case, ib, rb, 'part_vs_superposition', mech)
+            compare_tie(case, ia, ra, 'part_vs_superposition', mech, alt_for(a_idx))
+            compare_tie(case, ib, rb, 'part_vs_superposition', mech, alt_for(b_idx))
             tot = _val_unit(ia)[0] + _val_unit(ib)[0]
             units = {str(x) for x in (_val_unit(ia)[1], _val_unit(ib)[1]) if x is not None}
             case.check(len(units) <= 1, 'parts_same_unit', mech, units=sorted(units))
             uq = _val_unit(ia)[1] or _val_unit(ib)[1]
             tot_q = tot * uq if uq is not None else tot
-            compare(case, tot_q, ref, 'additivity_parts_sum', mech)
+            compare_tie(case, tot_q, ref, 'additivity_parts_sum', mech, alt_for(allidx))
             cat = vstack([t[b_idx], t[a_idx]])
             icat = call(cat, b_idx + a_idx)
-            compare(case, icat, ref, 'additivity_vstack', mech)
+            compare_tie(case, icat, ref, 'additivity_vstack', mech, alt_for(allidx))
         except LibRaised:
             pass
     # -- a far-away row inserted (front / middle / end) changes nothing
@@ -784,7 +856,7 @@ def _mmi(case):
                   shape_is_array=bool(array_shape))
         try:
             im5 = call(tt, None, fl)
-            compare(case, im5, ref, 'offimage_row_inserted', mech)
+            compare_tie(case, im5, ref, 'offimage_row_inserted', mech, alt_for(allidx))
         except LibRaised:
             pass
     case.check(_snap_table(t) == snap_t, 'table_unchanged', mech)
@@ -874,7 +946,7 @@ def _rows_from_results(psf, res, include_bkg, psf_shape, extra=()):
     return rows
 
 
-def _phot_images(case, phot, psf, res, data_in, data_q, unit, mech, extra=(), force_shapes=None):
+def _phot_images(case, phot, psf, res, data_in, data_q, unit, mech, extra=(), force_shapes=None, resid_in=None):
     """model / residual images of a photometry object vs superposition of its results table."""
     rng = case.rng
     xn, yn, fn = _names(psf)
@@ -902,19 +974,26 @@ def _phot_images(case, phot, psf, res, data_in, data_q, unit, mech, extra=(), fo
         try:
             mi = lib_call(case, lambda: phot.make_model_image(out_shape, psf_shape=psf_shape,
                                                               include_localbkg=include_bkg), m2, **fl)
-            compare(case, mi, ref, 'phot_model_image_vs_results', m2)
+            alt_fn = None
+            if psf_shape is None:
+                tz = tie_shapes(psf, rows, xn, yn)
+                if any(z is not None for z in tz):
+                    rr_ = [dict(r_, model_shape=z) if z is not None else r_ for r_, z in zip(rows, tz)]
+                    alt_fn = (lambda rr_=rr_: R.render(out_shape, psf, rr_, xn, yn))
+            compare_tie(case, mi, ref, 'phot_model_image_vs_results', m2, alt_fn)
         except LibRaised:
             continue
         if out_shape != shape:
             continue
         # residual == data - model image (same psf_shape / include_localbkg), exactly
         try:
-            ri = lib_call(case, lambda: phot.make_residual_image(data_in, psf_shape=psf_shape,
+            rin = data_in if resid_in is None else resid_in
+            ri = lib_call(case, lambda: phot.make_residual_image(rin, psf_shape=psf_shape,
                                                                  include_localbkg=include_bkg), m2, **fl)
         except LibRaised:
             continue
         from astropy.nddata import NDData
-        if isinstance(data_in, NDData):
+        if isinstance(rin, NDData):
             ok = isinstance(ri, NDData)
             case.check(ok, 'residual_nddata_type', m2, type=type(ri).__name__)
             if not ok:
@@ -927,6 +1006,24 @@ def _phot_images(case, phot, psf, res, data_in, data_q, unit, mech, extra=(), fo
             case.check((ru is None and unit is None) or (ru is not None and unit is not None and ru == unit),
                        'residual_unit', m2, obs=str(ru), exp=str(unit))
         exp = _val_unit(data_q)[0] - _val_unit(mi)[0]
+        if resid_in is not None:
+            # narrow-dtype image handed to make_residual_image: judged against the float64 computation on the values
+            # the dtype holds (data_q holds exactly those values as float64)
+            src = resid_in.data if isinstance(resid_in, NDData) else resid_in
+            sdt = np.asarray(src).dtype
+            m2 = dict(m2, data_dtype=str(sdt.kind) + str(sdt.itemsize),
+                      data_kind='integer' if sdt.kind in 'iu' else 'float',
+                      container='NDData' if isinstance(resid_in, NDData) else 'ndarray')
+            if isinstance(resid_in, NDData) and sdt.kind == 'f' and sdt.itemsize < 8:
+                # an NDData residual keeps the float16 / float32 dtype of its data array: judged to the precision
+                # of that dtype (eps relative to the larger of |data| and |model| per pixel), nothing looser
+                eps = float(np.finfo(sdt).eps)
+                sc = np.maximum(np.abs(_val_unit(data_q)[0]), np.abs(_val_unit(mi)[0]))
+                with np.errstate(all='ignore'):
+                    dev = float(np.max(np.abs(rv.astype(float) - exp) / np.where(sc > 0, sc, 1.0)))
+                case.dev('residual_narrow_float_nddata_in_eps', dev / eps)
+                case.check(dev <= 2.0 * eps, 'residual_equals_data_minus_model', m2, dev=dev, eps=eps)
+                continue
         case.close(rv, exp, 'residual_equals_data_minus_model', mech=m2)
     return nontriv
 
@@ -997,6 +1094,32 @@ def _psfphot(case):
         init['local_bkg'] = lb * unit if unit is not None else lb
     grouper = SourceGrouper(8.0) if variant == 'grouped' else None
     use_nddata = rng.random() < 0.25
+    resid_in = None
+    if unit is None and ax.random() < 0.15:
+        # axis (vii): a narrow-dtype image.  The fit runs on the float64 copy of exactly the values the dtype holds;
+        # make_residual_image is then given the narrow array itself (or an NDData holding it)
+        dt = str(ax.choice(['f4', 'f2', 'u1', 'u2', 'i2', 'i4', 'u4']))
+        top = {'f4': None, 'f2': 1000.0, 'u1': 200.0, 'u2': 60000.0, 'i2': 30000.0, 'i4': 2.0e9, 'u4': 4.0e9}[dt]
+        with np.errstate(all='ignore'):
+            if top is None:
+                narrow = data.astype('f4')
+            else:
+                fac = top / float(np.max(np.abs(data)))
+                scaled = data * fac
+                if dt[0] == 'u':
+                    scaled = np.clip(scaled, 0, None)
+                narrow = (np.round(scaled) if dt[0] in 'iu' else scaled).astype(dt)
+                if 'flux' in init.colnames:
+                    init['flux'] = init['flux'] * fac
+                if 'local_bkg' in init.colnames:
+                    init['local_bkg'] = init['local_bkg'] * fac
+        if np.all(np.isfinite(narrow.astype(float))):
+            data = narrow.astype(float)
+            resid_in = NDData(narrow) if use_nddata else narrow
+            case.note('axis2_dtype_image_' + dt)
+    if ax.random() < 0.2 and variant != 'fixed_first_off':
+        fit_shape = (5, 7) if ax.random() < 0.5 else (7, 5)          # axis (viii): anisotropic fit_shape
+        case.note('axis2_anisotropic_fit_shape')
     data_q = data * unit if unit is not None else data
     data_in = NDData(data, unit=unit) if use_nddata else data_q
     case.params = dict(leg='PSFPhotometry', psf=kind, shape=list(shape), nsrc=len(pos), variant=variant,
@@ -1008,7 +1131,7 @@ def _psfphot(case):
     res = phot(data_in, init_params=init)
     if not np.all(np.isfinite(_pv(res['x_fit']))) or not np.all(np.isfinite(_pv(res['flux_fit']))):
         case.skip('non-finite fit result')
-    nt = _phot_images(case, phot, psf_fit, res, data_in, data_q, unit, mech, extra, force_shapes)
+    nt = _phot_images(case, phot, psf_fit, res, data_in, data_q, unit, mech, extra, force_shapes, resid_in=resid_in)
     case.check(_snap_model(psf_fit) == snap_m, 'model_unchanged', mech)
     case.nontrivial = nt
 
